@@ -35,9 +35,12 @@ static std::string edgeText(const dd_edge &e)
 
 void World::auditI1(bool all)
 {
+    // fresh results are checked by their producers, edges about to be
+    // released or overwritten by those steps; everything held is
+    // re-evaluated on the periodic pass
+    if (!all) return;
     for (EdgeSlot* e : edges) {
         if (failed()) return;
-        if (!all && e->born == uint64_t(cur_step)) continue;
         checkEdge(*e, "I1", cur_family, "held edge");
     }
 }
@@ -444,14 +447,23 @@ void World::auditAfterStep(bool force_all)
         monitorReport(err);
         if (!err.empty()) { failNow("I7", cur_family, err); return; }
     }
-    const bool allI1 = force_all || (i1_every <= 1) || (cur_step % i1_every == 0);
-    auditI1(allI1);
+    const bool allI1 = force_all || (i1_every <= 1) || ((cur_step + int(plan.seed % 3)) % i1_every == 0);
+    static const bool noI1 = getenv("SIM_NO_I1") != nullptr, noAudit = getenv("SIM_NO_AUDIT") != nullptr;
+    if (!noI1) auditI1(allI1);
     if (failed()) return;
     auditI2();
     if (failed()) return;
-    if (full_audit || force_all) {
+    if ((full_audit || force_all) && !noAudit) {
+        const bool periodic = force_all || audit_every <= 1 || ((cur_step + int(plan.seed % 4)) % audit_every == 0);
         for (ForRT &F : forests) {
             if (!F.alive) continue;
+            const statset &st = F.f->getStats();
+            uint64_t sig = mix64(uint64_t(st.active_nodes), uint64_t(st.reclaimed_nodes));
+            sig = mix64(sig, uint64_t(st.peak_active));
+            sig = mix64(sig, uint64_t(F.f->getLastNode()));
+            sig = mix64(sig, uint64_t(F.f->countRegisteredEdges()));
+            if (!periodic && sig == F.audit_sig) continue;
+            F.audit_sig = sig;
             auditForestStructure(F);
             if (failed()) return;
             auditRefcounts(F);
